@@ -15,6 +15,7 @@ PLAIN_IDS = [
     "Region", "_seg", "tier", "device", "score", "cohort", "lang", "B", "my_fld",
     "my_fld_1", "zone", "bucket_key",
 ]
+CASE_PAIRS = [("userId", "userid"), ("Region", "region"), ("B", "b"), ("UID", "uid"), ("Zone", "zone")]
 # identifiers that merely *begin* with a keyword (C07 territory): harmless here,
 # the oracles are relative, such a text is simply whatever the tree says it is.
 KEYWORD_PREFIX_IDS = ["order_id", "index", "android", "notify", "iffy", "returned", "salty"]
@@ -113,7 +114,7 @@ class _Builder:
         rng = self.rng
         self.branch += 1
         b = self.branch
-        n = rng.choice([1, 1, 2, 2, 2, 3, 3, 4, 5, 6])
+        n = rng.choice([1, 1, 2, 2, 2, 3, 3, 4, 5, 6, 6, 8, 9, 12, 20])
         toks = ["return"]
         numeric = rng.random() < 0.08
         for g in range(n):
@@ -216,6 +217,13 @@ class _Builder:
             ids.insert(0, rng.choice(KEYWORD_PREFIX_IDS))
         lo, hi = o.get("splitters", (0, 4))
         nspl = rng.randint(lo, hi)
+        if nspl >= 2 and rng.random() < o.get("p_case_pair", 0.06):
+            # two field names that differ only in letter case
+            a, b = rng.choice(CASE_PAIRS)
+            ids = [x for x in ids if x not in (a, b)]
+            pair = [a, b]
+            rng.shuffle(pair)
+            ids[rng.randrange(nspl - 1):0] = pair
         p.splitters = ids[:nspl]
         ncond = rng.choice([0, 1, 1, 2, 2, 3])
         self.fields_pool = ids[nspl:nspl + ncond]
@@ -354,6 +362,7 @@ LOOKALIKE_TAILS = {
     "case": (" ab", " aB"),                   # same after case folding
     "nonascii": ("", "\u00e9"),               # same after encode(errors='ignore')
     "strip": ("", " "),                       # same after stripping the literal
+    "surrogate": (" \udcc3\udca9", " \u00e9"),   # same bytes under encode('utf-8', 'surrogateescape')
 }
 
 
@@ -491,10 +500,12 @@ def _near(rng, lit):
     if isinstance(lit, bool) or lit is None:
         return lit
     if isinstance(lit, int):
-        return lit + rng.choice([0, 0, 0, 1, -1])
+        return rng.choice([lit, lit, lit, lit + 1, lit - 1, str(lit), float(lit)])     # incl. values that only PRINT alike
     if isinstance(lit, float):
-        return rng.choice([lit, lit, lit + 0.5, lit - 0.5, int(lit)])
+        return rng.choice([lit, lit, lit + 0.5, lit - 0.5, int(lit), str(lit)])
     if isinstance(lit, str):
+        if lit.isdigit() and rng.random() < 0.3:
+            return int(lit)
         return rng.choice([lit, lit, lit, lit + "x", lit.upper()])
     return lit
 
